@@ -351,6 +351,94 @@ theorem remote_close_kills_held (s : L) (hw : WF s) (m : Msg) (hp : s.paused = s
     · exact hnot ((run_sends .http ins _ hw1 hn1).1 _ c hc)
   · exact List.mem_append_left _ herr
 
+-- whole histories: the well-formedness and distinctness hypotheses derived from the history itself ------------
+
+private theorem run_append (k : Kind) : ∀ (a b : List In) (s : L),
+    run k s (a ++ b) = ((run k (run k s a).1 b).1, (run k s a).2 ++ (run k (run k s a).1 b).2)
+  | [], b, s => by simp [run]
+  | i :: a, b, s => by
+    simp only [List.cons_append, run]
+    rw [run_append k a b (step k s i).1]
+    simp [List.append_assoc]
+
+private theorem arrivals_append : ∀ (a b : List In), arrivals (a ++ b) = arrivals a ++ arrivals b
+  | [], b => rfl
+  | .arrive m :: a, b => by simp [arrivals, arrivals_append a b]
+  | .complete _ :: a, b => by simp [arrivals, arrivals_append a b]
+  | .close _ _ :: a, b => by simp [arrivals, arrivals_append a b]
+
+/-- every reachable layer state is well-formed, and what it holds is distinct from what is still to arrive -/
+private theorem run_wf (k : Kind) : ∀ (ins : List In) (s : L) (rest : List Nat), WF s →
+    (held s ++ (arrivals ins ++ rest)).Nodup → WF (run k s ins).1 ∧ (held (run k s ins).1 ++ rest).Nodup
+  | [], s, rest, hw, hn => by simpa [run, arrivals] using ⟨hw, hn⟩
+  | i :: is, s, rest, hw, hn => by
+    have hw1 := wf_step k s i hw
+    have hh := held_step k s i hw
+    have hn1 : (held (step k s i).1 ++ (arrivals is ++ rest)).Nodup := by
+      cases i with
+      | arrive m =>
+        simp only [hh, arrivals] at hn ⊢
+        simpa [List.append_assoc] using hn
+      | complete v =>
+        simp only [hh, arrivals] at hn ⊢
+        cases hhs : held s with
+        | nil => simpa [hhs] using hn
+        | cons a t =>
+          rw [hhs] at hn
+          simp only [List.tail_cons]
+          simp only [List.cons_append, List.nodup_cons] at hn
+          exact hn.2
+      | close kl gn => simpa only [hh, arrivals] using hn
+    simpa [run] using run_wf k is (step k s i).1 rest hw1 hn1
+
+/-- **kill forwards nothing and errors** — whole-history form, for the layers whose send-after-hook step consults the
+    kill (HTTP, DNS queries): in EVERY history from the initial state with distinct message ids, if the flow is killed
+    while the hook of message `m` is pending, then `m` is never sent — not before (it was held), not when the hook
+    completes, not afterwards, whatever else arrives — and the flow ends with an error.  No hypothesis on the state:
+    well-formedness and distinctness of what is held are derived from the history. -/
+theorem kill_forwards_nothing_and_errors (k : Kind) (hk : k.honoursKill = true) (ins1 ins2 : List In) (m : Msg)
+    (v : Verdict) (hv : v.killed = true) (hp : (run k {} ins1).1.paused = some m)
+    (hn : (arrivals (ins1 ++ .complete v :: ins2)).Nodup) :
+    (∀ c, Out.send m.id c ∉ (run k {} (ins1 ++ .complete v :: ins2)).2) ∧
+    Out.error m.id ∈ (run k {} (ins1 ++ .complete v :: ins2)).2 := by
+  have hn' : (held ({} : L) ++ (arrivals ins1 ++ arrivals ins2)).Nodup := by
+    simpa [held, arrivals_append, arrivals] using hn
+  obtain ⟨hw1, hn1⟩ := run_wf k ins1 {} (arrivals ins2) (by intro _; rfl) hn'
+  obtain ⟨h1, h2⟩ := kill_forwards_nothing_and_errors_partial k hk (run k {} ins1).1 hw1 m hp v hv ins2 hn1
+  rw [run_append]
+  constructor
+  · intro c hc
+    simp only [List.mem_append] at hc
+    rcases hc with hc | hc
+    · -- before the completion the message was held, hence never sent
+      have hheld : m.id ∈ held (run k {} ins1).1 := by
+        obtain ⟨t, ht⟩ := held_head _ m hp; simp [ht]
+      have hn0 : (held ({} : L) ++ arrivals ins1).Nodup := by
+        have : (arrivals ins1 ++ arrivals ins2).Nodup := by simpa [held] using hn'
+        simpa [held] using (List.nodup_append.1 this).1
+      exact ((run_sends k ins1 {} (by intro _; rfl) hn0).2 m.id hheld).2 c hc
+    · exact h1 c hc
+  · exact List.mem_append_right _ h2
+
+/-- **the kill clause at full strength, exactly where the code allows it**: a layer kind satisfies the whole-history
+    kill statement if and only if its send-after-hook step consults the kill.  (HTTP and DNS queries do; TCP, UDP,
+    WebSocket and DNS answers do not — findings F-C11a–d.) -/
+theorem kill_forwards_nothing_and_errors_iff (k : Kind) :
+    (∀ (ins1 ins2 : List In) (m : Msg) (v : Verdict), v.killed = true → (run k {} ins1).1.paused = some m →
+        (arrivals (ins1 ++ .complete v :: ins2)).Nodup →
+        (∀ c, Out.send m.id c ∉ (run k {} (ins1 ++ .complete v :: ins2)).2) ∧
+          Out.error m.id ∈ (run k {} (ins1 ++ .complete v :: ins2)).2)
+    ↔ k.honoursKill = true := by
+  constructor
+  · intro h
+    cases hk : k.honoursKill
+    · exfalso
+      have := (h [.arrive ⟨1, 7⟩] [] ⟨1, 7⟩ ⟨true, false, 7⟩ rfl (by cases k <;> rfl) (by decide)).1 7
+      cases k <;> simp [Kind.honoursKill] at hk <;> exact this (by decide)
+    · rfl
+  · intro hk ins1 ins2 m v hv hp hn
+    exact kill_forwards_nothing_and_errors k hk ins1 ins2 m v hv hp hn
+
 /-- TCP, UDP, WebSocket messages and DNS answers are forwarded although the flow was killed while intercepted -/
 theorem kill_forwards_nothing_and_errors_counterexample :
     ∀ k ∈ [Kind.tcp, Kind.udp, Kind.ws, Kind.dnsResp],
